@@ -127,9 +127,9 @@ def c14_checks(cfg, rr, seed):
     ]
     c = dict(cfg)
     c["mode"] = "real"
-    A = runner.execute_run(dict(c), recipes=copy.deepcopy([reseed] + P))
+    A = runner.execute_run(dict(c), recipes=copy.deepcopy([reseed] + P), stop_on_taint=False)
     ka = list(A.sampler_keys)
-    B = runner.execute_run(dict(c, lib_seed=c.get("lib_seed", 1) + 17), recipes=copy.deepcopy(others + junk + [reseed] + P))
+    B = runner.execute_run(dict(c, lib_seed=c.get("lib_seed", 1) + 17), recipes=copy.deepcopy(others + junk + [reseed] + P), stop_on_taint=False)
     n = A.steps + B.steps
     pa = [e for e in A.events if e["sid"] < 10**6]
     pb = [e for e in B.events if e["sid"] < 10**6 and any(r["sid"] == e["sid"] for r in P)]
@@ -159,24 +159,28 @@ def hash_s(s):
     return hashlib.blake2b(s.encode(), digest_size=6).hexdigest()
 
 
-def replay_file(path):
+def replay_file(path, prop=None):
     """Re-execute a replay file; returns (reproduced?, violations json, record)."""
     from sim import runner
 
     with open(path) as f:
         rp = json.load(f)
-    prop = rp["property"]
+    prop = prop or rp["property"]
     cfg = dict(rp["cfg"])
     recipes = rp["steps"]
     viols = run_recipes_for_prop(prop, cfg, recipes, rp.get("twin"))
     want = rp.get("expect", {}).get("key")
-    got = [v for v in viols if want is None or sig_key(v) == tuple(want)]
+    got = [v for v in viols if want is None or key_eq(sig_key(v), want)]
     return (len(got) > 0), viols, rp
 
 
 def sig_key(v):
     c = v["cell"]
-    return (v["oracle"], v["failure"], c.get("action"), c.get("type"), c.get("entry"), tuple(c.get("stores", [])), tuple(c.get("levels", [])))
+    return [v["oracle"], v["failure"], c.get("action"), c.get("type"), c.get("entry"), list(c.get("stores", [])), list(c.get("levels", []))]
+
+
+def key_eq(a, b):
+    return json.dumps(a, default=list) == json.dumps(b, default=list)
 
 
 def run_recipes_for_prop(prop, cfg, recipes, twin=None):
